@@ -638,7 +638,7 @@ def search(ctx, rng, budget):
 
 def run(ctx):
     rng = np.random.default_rng(ctx.seed)
-    pr = vlib.coq_props('C12', translators=['center_src'])
+    pr = vlib.coq_props('C12', translators=['center_src', 'center_prep_src'])
     ctx.cov.update(obligations=len(pr['theorems']), discharged=pr['discharged'],
                    theorems=pr['theorems'], axioms=pr['axioms'],
                    checker_cmd='make -C /verif/coq props/C12.vo (coqc 8.16.1, full .vo build) + Print Assumptions',
